@@ -1,4 +1,5 @@
 """C01 — alignment integrity."""
+import os
 from lib import common as C
 from lib import gen, sysrun
 from lib.sysrun import Case
@@ -270,6 +271,30 @@ def run(ctx):
         b.want_ev = False
         b.fmt = ["fasta", "clu", "msf"][k % 3]
         big.append(b)
+    # long families (1005..2500 residues, 3..8 members, one-column and short indels): two and more levels of the task-parallel Hirschberg
+    # controller, whose sub-windows inherit boundary states -- uninstrumented build, both APIs
+    for k in range(int(os.environ.get("VERIF_C01_LONG", "60" if ctx.quick else "600"))):
+        kind = ctx.rng.choice(["protein", "protein", "dna"])
+        Lb = ctx.rng.randint(1005, 2500)
+        fam = gen.family(ctx.rng, kind, ctx.rng.randint(3, 8), Lb, sub=ctx.rng.choice([0.003, 0.02, 0.1]), indel=ctx.rng.choice([0.0005, 0.002, 0.01]), spice=False)
+        b = Case(fam, 5, threads=ctx.rng.choice([1, 4]), fmt=ctx.rng.choice(["fasta", "clu", "msf"]), api=ctx.rng.choice(["file", "arr"]), tag="long family")
+        big.append(b)
+    # targeted: a group of near-identical long sequences against one member that lacks 1..3 residues right at (or next to) the row where the
+    # first Hirschberg split of the group falls -- the sub-windows next to the split then start/end in a gap state
+    for k in range(60 if ctx.quick else 600):
+        kind = ctx.rng.choice(["protein", "dna"])
+        alpha = gen.AA if kind == "protein" else gen.DNA
+        n = ctx.rng.randint(1002, 2400)
+        a = gen.rand_seq(ctx.rng, alpha, n)
+        grp = [("g%d" % j, gen.mutate(ctx.rng, a, alpha, 0.003, 0.0)) for j in range(ctx.rng.randint(2, 3))]
+        mid = n // 2
+        d0 = mid + ctx.rng.randint(-2, 3)
+        dl = ctx.rng.choice([1, 1, 1, 2, 3])
+        c_ = gen.mutate(ctx.rng, a, alpha, 0.02, 0.0)
+        c_ = c_[:d0] + c_[d0 + dl:]
+        recs_ = grp + [("c", c_)]
+        ctx.rng.shuffle(recs_)
+        big.append(Case(recs_, 5, threads=ctx.rng.choice([1, 4]), fmt="fasta", api=ctx.rng.choice(["file", "arr"]), tag="gap at the split row"))
     sysrun.run_cases(C.build_harness("plain"), big, timeout=1800)
     cases += big
     model_lines, expected, where = [], [], []
